@@ -16,6 +16,9 @@ CLAIMS = {
     "C03": ("every Assembly() of real simulations of all seven types and of a harness-defined _Simu subclass with random element data (dof_n 1-6, complex, None slots, boundary and empty groups, Lagrange conditions, mesh replacement, cached-map reuse) is compared with a dense explicit-loop scatter-add of the dictionary captured during that very call; renumbered meshes give the permuted system and solution",
             "dense reference, Ndof <= 1500; tolerance 1e-11",
             "reference-model monitor installed on _Simu.Assembly (captures Construct_local_matrix_system output) + operation histories"),
+    "C04": ("shadow model of generated boundary-condition programs (overlapping sets, dofs entered 1-3 times, constants/arrays/callables) checked against the solution returned by Solve(): constrained values, free-dof residual of the assembled system, orphan nodes, all installed back-ends (scipy, cg, bicg, gmres, lgmres, lsq_linear) judged by the residual they promise, Lagrange and beam-connection paths against an independent dense KKT solve, Newton-incremental solves with non-zero and repeated prescribed values",
+            "direct 1e-9 / iterative 1e-4 relative residual; pypardiso/petsc not installed; dense KKT reference <= 600 dofs",
+            "shadow-model oracle of the BC program + residual monitor at the Solve boundary"),
 }
 
 
